@@ -533,6 +533,37 @@ class C15(Prop):
                     b.argmax(axis=0)
                 elif call == "interp":
                     b.interp_axis(np.array([1.5, 2.5]), axis=b.ndim - 1)
+                elif call == "copy_mutate":
+                    # copy() is deep: whatever is changed through the copy (values, labels - of the level axes of a grouped
+                    # axis too -, names, metadata, mutable metadata values) never shows in the original
+                    g = b.copy()
+                    if g.size:
+                        g.values.flat[0] = -777.0
+                    g.attrs["hist"].append("copy") if isinstance(g.attrs.get("hist"), list) else None
+                    g.attrs["new"] = 1
+                    for ax in g.axes:
+                        subs = list(getattr(ax, "axes", [])) or [ax]
+                        for sub in subs:
+                            if sub.size and sub.values.dtype.kind in "iuf":
+                                sub.values[0] = 99
+                            sub.attrs["touched"] = True
+                            try:
+                                sub.name = sub.name + "_m"
+                            except Exception:
+                                pass
+                elif call == "setna_masks":
+                    m1, m2 = (b > 1), (b > 3)
+                    extra = {"mask1": (m1, snap(m1)), "mask2": (m2, snap(m2))}
+                    b.setna([m1, m2, 0.0])
+                    for k2, (obj, s0) in extra.items():
+                        if snap(obj) != s0:
+                            viol.append({"func": call, "operand": k2, "changed": what_changed(s0, snap(obj))})
+                elif call == "put_mask":
+                    m1 = np.asarray((b > 1).values)
+                    s0 = m1.copy()
+                    b.put(m1, 0.0, inplace=False)
+                    if not np.array_equal(m1, s0):
+                        viol.append({"func": call, "operand": "mask", "changed": "values"})
             except Exception:
                 pass
             n += 1
@@ -565,7 +596,8 @@ class C15(Prop):
                    "how": rng.choice(["boolnd", "boolnd", "flatten", "flatten_two", "newaxis", "stack", "take_list", "transpose"]),
                    "calls": [rng.choice(["add", "radd", "add_self", "reshape_same", "reshape_t", "mean", "sum_axis0", "transpose",
                                          "copy", "sort_axis", "take0", "eq", "align", "stack_with", "to_dataset", "unflatten", "fillna",
-                                         "percentile", "quantile", "quantile_last", "median", "cumsum", "diff", "argmax", "interp"])
+                                         "percentile", "quantile", "quantile_last", "median", "cumsum", "diff", "argmax", "interp",
+                                         "copy_mutate", "copy_mutate", "setna_masks", "put_mask"])
                              for _ in range(rng.randint(1, 3))], "seed": i}
         import random as _r
         for pid in SWEEP:
